@@ -54,14 +54,14 @@ WS = ['Ws_Read', 'Ws_ReadPartial', 'Ws_Length', 'Ws_Position', 'Ws_Seek', 'Ws_Se
 def slice_(fn, reach=None, replace=(), props=('C12', 'C13')):
     G('slice.' + fn, list(props), 'slice', 'SliceReader_' + fn, replace=WS + list(replace), reach=reach if reach is not None else ['normal exit', 'exceptional exit'],
       trusted=['K_W (contracts/kr.h): assumed contract of the wrapped stream type W; proved for MemoryReader, assumed for FileReader (std::ifstream)'])
-slice_('Initialize'); slice_('ctor', replace=['SliceReader_Initialize']); slice_('copyctor', reach=NOEXC, replace=['SliceReader_Initialize'])
+slice_('Initialize', props=('C12', 'C13', 'C05')); slice_('ctor', replace=['SliceReader_Initialize'], props=('C12', 'C13', 'C05')); slice_('copyctor', reach=NOEXC, replace=['SliceReader_Initialize'])
 slice_('ReadImplementation'); slice_('ReadPartial', reach=NOEXC, replace=['SliceReader_Position'])
 slice_('Length', reach=NOEXC); slice_('Position', reach=NOEXC)
 slice_('Seek'); slice_('SeekForward', replace=['SliceReader_Position']); slice_('SeekBackward', replace=['SliceReader_Position'])
 slice_('Slice2', replace=['SliceReader_ctor']); slice_('Slice1', replace=['SliceReader_Slice2', 'SliceReader_Position', 'SliceReader_SeekForward'])
 
 # ---- U-BIDI
-RD = ['Rd_Read', 'Rd_ReadRec8', 'Rd_ReadRec16', 'Rd_ReadRec24', 'Rd_ReadPartial', 'Rd_Length', 'Rd_Position', 'Rd_Seek', 'Rd_SeekForward', 'Rd_SeekBackward']
+RD = ['Rd_Read', 'Rd_ReadU32', 'Rd_ReadRec8', 'Rd_ReadRec16', 'Rd_ReadRec24', 'Rd_ReadPartial', 'Rd_Length', 'Rd_Position', 'Rd_Seek', 'Rd_SeekForward', 'Rd_SeekBackward']
 KR_TRUST = 'K_R (contracts/kr.h) as the contract of the abstract Stream::Reader interface: proved for MemoryReader and SliceReader<W>; virtual dispatch bound statically to the contract'
 G('bidi.Read', ['C12'], 'bidi', 'Reader_Read', replace=RD, trusted=[KR_TRUST])
 G('bidi.Peek', ['C12', 'C09'], 'bidi', 'BidirectionalReader_Peek', replace=RD, trusted=[KR_TRUST])
@@ -112,7 +112,7 @@ claim('C16', 'GetTileIndex proved equal to the 32-column block-order formula and
 # ---- U-STR (C19 comparator, C01/C02 duplicate detection)
 TOLOWER_TRUST = 'tolower/toupper: C locale, key(c) = c+32 for A..Z, for every c in -128..255 (assumed contract, contracts/str.contracts)'
 G('str.IsEqual', ['C19', 'C01'], 'str', 'StringUtility_IsEqual', replace=['op2_tolower', 'op2_toupper'], solver='cvc5', reach=NOEXC, timeout=900, trusted=[TOLOWER_TRUST], stage2='OP2_BOUNDED=4', replay={'driver': 'str_replay.cpp', 'case': 'cmp'})
-G('str.IsEqualCaseInsensitive', ['C19', 'C01', 'C02'], 'str', 'StringUtility_IsEqualCaseInsensitive', replace=['op2_tolower', 'op2_toupper'], solver='cvc5', reach=NOEXC, timeout=600, trusted=[TOLOWER_TRUST], stage2='OP2_BOUNDED=4', replay={'driver': 'str_replay.cpp', 'case': 'cmp'})
+G('str.IsEqualCaseInsensitive', ['C19', 'C01', 'C02', 'C03', 'C18'], 'str', 'StringUtility_IsEqualCaseInsensitive', replace=['op2_tolower', 'op2_toupper'], solver='cvc5', reach=NOEXC, timeout=600, trusted=[TOLOWER_TRUST], stage2='OP2_BOUNDED=4', replay={'driver': 'str_replay.cpp', 'case': 'cmp'})
 G('str.ConvertToUpperInPlace', ['C19'], 'str', 'StringUtility_ConvertToUpperInPlace', replace=['op2_toupper'], reach=NOEXC, timeout=600, trusted=[TOLOWER_TRUST])
 
 CMP = ['StringUtility_IsEqualCaseInsensitive', 'StringUtility_IsEqual']
@@ -147,15 +147,15 @@ claim('C15', 'Inductive step proved from an ARBITRARY well-formed tree (so for a
 
 # ---- U-BSR (C04: bit reader)
 for fn_, rc_ in (('ctor', ['normal exit', 'exceptional exit']), ('ReadNextBit', NOEXC), ('ReadNext8Bits', NOEXC), ('EndOfStream', NOEXC), ('GetBitReadPos', NOEXC)):
-    G('bsr.' + fn_, ['C04'], 'bsr', 'BitStreamReader_' + fn_, reach=rc_, what='MSB-first bits of the input, 0 beyond the end; any buffer length')
+    G('bsr.' + fn_, ['C04', 'C05'], 'bsr', 'BitStreamReader_' + fn_, reach=rc_, what='MSB-first bits of the input, 0 beyond the end; any buffer length')
 
 # ---- U-LZ (C04)
 BSRC = ['BitStreamReader_ReadNextBit', 'BitStreamReader_ReadNext8Bits', 'BitStreamReader_EndOfStream']
 HTC = ['AdaptiveHuffmanTree_GetRootNodeIndex', 'AdaptiveHuffmanTree_IsLeaf', 'AdaptiveHuffmanTree_GetChildNode', 'AdaptiveHuffmanTree_GetNodeData', 'AdaptiveHuffmanTree_UpdateCodeCount', 'AdaptiveHuffmanTree_make']
 LZ_TRUST = ['ghost g_tree_wf is by definition the quantified structural tree invariant (unfolded only in GetNextCode)', 'UpdateCodeCount preserves the structural tree invariant for the 314-symbol tree (assumed contract in contracts/lz.contracts; proved by unit huff only for T <= 6)',
             'memcpy/memset: assumed contracts with ghost-address postcondition (contracts/lz.contracts)']
-def lz(fn, reach=NOEXC, replace=(), **kw):
-    G('lz.' + fn, ['C04'], 'lz', 'HuffLZ_' + fn, replace=BSRC + HTC + ['op2_memcpy', 'op2_memset'] + list(replace), reach=reach, trusted=LZ_TRUST, **kw)
+def lz(fn, reach=NOEXC, replace=(), props=('C04',), **kw):
+    G('lz.' + fn, list(props), 'lz', 'HuffLZ_' + fn, replace=BSRC + HTC + ['op2_memcpy', 'op2_memset'] + list(replace), reach=reach, trusted=LZ_TRUST, **kw)
 lz('GetOffsetModifiers', what='code arithmetic == LZHUF d_code/d_len tables for all 256 byte values')
 lz('WriteCharToBuffer')
 lz('GetRepeatOffset', replace=['HuffLZ_GetOffsetModifiers'], flags=['--unwind', '8', '--unwinding-assertions'], loop_contracts=False, timeout=900,
@@ -169,7 +169,7 @@ lz('FillDecompressBuffer', reach=['normal exit', 'exceptional exit'], replace=['
    what='queue invariant: unread data never overwritten (DecompressCode precondition unread <= 4035 at every call), terminates')
 lz('CopyAvailableData', timeout=900, what='delivers min(size, unread) oldest bytes in order, advances the read index by the count')
 lz('GetInternalBuffer', reach=['normal exit', 'exceptional exit'], replace=['HuffLZ_FillDecompressBuffer'], timeout=900)
-lz('InitializeDecompressBuffer')
+lz('InitializeDecompressBuffer', props=('C04', 'C18'), what='every byte of the 4096-byte window is a space after initialisation (no uninitialised window byte can reach the output)')
 
 # ---- U-BMPH (C08, C11, C09, C18)
 BMP_REPLAY = {'driver': 'bmp_replay.cpp', 'case': 'bmp'}
@@ -267,6 +267,10 @@ VOL_TRUST = ['std::vector<IndexEntry>::push_back, OpenAllInputFiles (stream j ha
              'format description carried by ghost arrays satisfying the layout recurrences (spec domain: <= 65536 members, sizes <= 2^40, name lengths <= 2^32)']
 G('volw.SectionHeader_ctor3', ['C02', 'C18', 'C01'], 'volw', 'VolSectionHeader_ctor3', reach=NOEXC, what='8 serialised bytes: tag, length in bits 0..30, padding flag in bit 31')
 G('volw.fileCount', ['C01'], 'volw', 'CreateVolumeInfo_fileCount', reach=NOEXC)
+G('volw.WriteVolume', ['C01', 'C20'], 'volw', 'VolFile_WriteVolume', reach=EXC2, replace=['XFile_PathsAreEqual', 'FileWriter_ctor', 'VolFile_WriteHeader', 'VolFile_WriteFiles'],
+  trusted=['XFile::PathsAreEqual as an uninterpreted deterministic relation (ghost value on one arbitrary pair)', 'WriteHeader/WriteFiles by frame-only contracts (they write through the writer and advance the input readers; their layout is decided by the bounded groups)',
+           'FileWriter constructor = the point where the destination is created/truncated (ghost g_dest_opened)'],
+  what='output path equal to an input (any member count, arbitrary index) is refused before the destination file is created')
 G('volw.PrepareHeader.bounded', ['C20', 'C01', 'C02'], 'volw', None, harness='h_vol_prepare_bounded', defines=['OP2_VOLN=3'], loop_contracts=False, reach=EXC2,
   flags=['--unwind', '6', '--unwinding-assertions', '--object-bits', '12'], timeout=900, replace=['Rf_Length', 'CreateVolumeInfo_fileCount'], bounded='member count n <= 3 (sizes and name lengths fully symbolic, 64-bit)',
   trusted=VOL_TRUST, replay={'driver': 'vol_replay.cpp', 'case': 'PrepareHeader'},
@@ -278,8 +282,11 @@ def clm(fn, props, reach=NOEXC, replace=(), **kw):
 clm('WaveHeader_Create', ['C03', 'C18'], what='canonical 46-byte WAV header; chunkSize + 8 == 46 + dataLength')
 clm('ClmHeader_MakeHeader', ['C03', 'C18']); clm('ClmHeader_CheckFileVersion', ['C03', 'C05']); clm('ClmHeader_CheckUnknown', ['C03', 'C05'])
 clm('ClmHeader_VerifyFileVersion', ['C03', 'C05'], reach=EXC2, replace=['ClmHeader_CheckFileVersion']); clm('ClmHeader_VerifyUnknown', ['C03', 'C05'], reach=EXC2, replace=['ClmHeader_CheckUnknown'])
-clm('ClmFile_FindChunk', ['C05', 'C03'], reach=EXC2, replace=RD, trusted=[KR_TRUST], timeout=900, replay={'driver': 'clm_replay.cpp', 'case': 'FindChunk'},
-    what='WAV chunk walk on arbitrary bytes: memory safe, terminates (decreases fileSize - cursor), returns the length of a chunk carrying the tag')
+clm('ClmFile_FindChunk', ['C05', 'C03'], reach=EXC2, replace=RD + ['Rd_ReadHdr'], trusted=[KR_TRUST], timeout=900, defines=['OP2_FC_LIGHT'], replay={'driver': 'clm_replay.cpp', 'case': 'FindChunk'},
+    what='WAV chunk walk on arbitrary bytes: memory safe (all generated checks), terminates (decreases fileSize - cursor)')
+G('clm.ClmFile_FindChunk.content', ['C03', 'C05'], 'clm', 'ClmFile_FindChunk', reach=EXC2, replace=RD + ['Rd_ReadHdr'], trusted=[KR_TRUST, 'generated pointer checks are OFF in this group (they are decided by clm.ClmFile_FindChunk on the same extracted body); contract clauses read the source bytes guard-first'],
+  timeout=900, no_standard_checks=True, replay={'driver': 'clm_replay.cpp', 'case': 'FindChunk'},
+  what='a normal return has just read a header carrying the searched tag and returns its length field; a matching first chunk, and a matching second chunk after a non-matching first one (also when its header ends exactly at end of file) are found')
 REL('clm', 'WaveHeader_Create', 'value', 'WaveHeader', nbytes=46, props=('C18', 'C03'))
 REL('clm', 'ClmHeader_MakeHeader', 'value', 'ClmHeader', nbytes=60, props=('C18', 'C03'))
 claim('C04', 'Bit reader proved against the reference bit sequence (MSB-first, 0 beyond the end) with its shift-register invariant for any buffer length; position-code arithmetic proved equal to the LZHUF d_code/d_len tables for all 256 values; GetRepeatOffset proved equal to the reference DecodePosition (lemma, any buffer/bit position) and < 4096; GetNextCode proved to terminate, stay inside the tree arrays and return a symbol < 314 (cvc5, quantified structural tree invariant); DecompressCode appends 1..60 bytes and never moves the read index; FillDecompressBuffer keeps the queue invariant (unread data never overwritten: the per-code precondition unread <= 4035 holds at every call) and terminates; CopyAvailableData / GetInternalBuffer deliver the oldest unread bytes in order and advance by exactly the count; adaptive-tree facts as in C15.',
@@ -329,14 +336,33 @@ NOT_DECIDED.update({
  'C17': ['PathsAreEqual case/"./" folding (std::filesystem)', 'ResourceManager::GetResourceStream precedence, listings, regex and extension matching, archive discovery'],
 })
 
+# ---- U-CLMR (C05, C03, C13, C17: CLM reading side)
+CLMR_TRUST = [KF_TRUST[0], 'assignment of std::vector<IndexEntry>(n) and IndexEntry::GetFilename (std::find iterator + std::string construction) as assumed abstract contracts in contracts/clmr.contracts',
+              'FileWriter seen as the abstract Writer (framing): constructor, Write(buffer), Write(Reader&) on a member stream (proved: wrt.WriteReader)']
+CR = KF + ['ClmFile_VerifyIndexInBounds', 'vec_ClmIndexEntry_assign_n', 'ClmIndexEntry_GetFilename', 'WaveHeader_Create', 'Wr_Write', 'Wr_WriteSliceT', 'FileWriter_ctor']
+def clmr(fn, props, reach=EXC2, replace=(), **kw):
+    G('clmr.' + fn, props, 'clmr', fn, replace=CR + list(replace), reach=reach, trusted=CLMR_TRUST, **kw)
+clmr('ClmHeader_CheckFileVersion', ['C05', 'C03'], reach=NOEXC); clmr('ClmHeader_CheckUnknown', ['C05', 'C03'], reach=NOEXC)
+clmr('ClmHeader_VerifyFileVersion', ['C05', 'C03'], replace=['ClmHeader_CheckFileVersion']); clmr('ClmHeader_VerifyUnknown', ['C05', 'C03'], replace=['ClmHeader_CheckUnknown'])
+clmr('ClmFile_ReadHeader', ['C05', 'C03'], replace=['ClmHeader_VerifyFileVersion', 'ClmHeader_VerifyUnknown'], flags=['--object-bits', '12'], replay={'driver': 'clmr_replay.cpp', 'case': 'ReadHeader'})
+clmr('ClmFile_GetName', ['C05', 'C17', 'C03']); clmr('ClmFile_GetSize', ['C05', 'C17', 'C03'])
+clmr('ClmFile_OpenStream', ['C05', 'C13', 'C03'], replay={'driver': 'clmr_replay.cpp', 'case': 'OpenStream'}); clmr('ClmFile_ExtractFile', ['C05', 'C03'], replay={'driver': 'clmr_replay.cpp', 'case': 'ExtractFile'})
+
 # ---- U-MAPIO (C06, C07, C20)
 MAPIO_TRUST = ['vector resize, size-prefixed container reads and ReadTilesetSources as abstract contracts that keep the stream a K_R stream (contracts/mapio.contracts)', KR_TRUST]
 MAPIO_R = RD + ['vec_Tile_resize', 'vec_u32_resize', 'Map_ReadTilesetSources', 'Reader_ReadSized_u32_vec_TileMapping', 'Reader_ReadSized_u32_vec_TerrainType', 'Reader_ReadSized_u32_str',
                 'Map_CheckMinVersionTag', 'MapHeader_WidthInTiles', 'MapHeader_TileCount', 'MapHeader_ctor', 'Map_ctor', 'IsPowerOf2', 'Log2OfPowerOf2', 'Wr_Write']
 def mapio(fn, props, reach=EXC2, replace=(), **kw):
-    G('mapio.' + fn, props, 'mapio', 'Map_' + fn, replace=MAPIO_R + list(replace), reach=reach, trusted=MAPIO_TRUST, **kw)
+    G('mapio.' + fn, props, 'mapio', ('SavedGameUnits_' if fn == 'CheckSizeOfUnit' else 'Map_') + fn, replace=MAPIO_R + list(replace), reach=reach, trusted=MAPIO_TRUST, **kw)
 mapio('SkipSaveGameHeader', ['C07']); mapio('ReadMapBeginning', ['C07', 'C06'], replace=['Map_ReadTilesetHeader'], timeout=900, flags=['--object-bits', '12'])
 mapio('ReadTilesetHeader', ['C07', 'C06']); mapio('ReadVersionTag', ['C07', 'C06']); mapio('ReadTileGroup', ['C07', 'C06'], flags=['--object-bits', '12'])
+SGU_R = ['vec_ObjectType1_resize', 'SavedGameUnits_CheckSizeOfUnit', 'Rd_ReadUnits', 'Rd_ReadFreeUnits', 'Rd_ReadU32T']
+mapio('ReadSavedGameUnits', ['C07'], replace=SGU_R, flags=['--object-bits', '12', '--slice-formula'], timeout=900, defines=['OP2_SGU_LIGHT'],
+      what='saved-game unit section on arbitrary bytes: memory safe (all generated checks), stream stays a valid K_R stream on both exits')
+G('mapio.ReadSavedGameUnits.content', ['C07'], 'mapio', 'Map_ReadSavedGameUnits', replace=MAPIO_R + SGU_R, reach=EXC2, flags=['--object-bits', '12', '--slice-formula'], timeout=900, no_standard_checks=True, solver='cadical',
+  trusted=MAPIO_TRUST + ['generated pointer checks are OFF in this group (decided by mapio.ReadSavedGameUnits on the same extracted body)', 'typed 32-bit reads assemble the four K_R bytes little-endian (target byte order)'],
+  what='consumes exactly the bytes the layout defines: both object tables sized by their own counts, free-unit table iff first != next free slot; wrong unit size refused; short input refused')
+mapio('CheckSizeOfUnit', ['C07'])
 mapio('GetWidthInTilesLog2', ['C06', 'C20']); mapio('CreateHeader', ['C06', 'C20'], replace=['Map_GetWidthInTilesLog2']); mapio('WriteContainerSize', ['C20', 'C06'])
 
 G('volw.WriteHeaderFiles.bounded', ['C02', 'C01', 'C18'], 'volw', None, harness='h_vol_write_bounded', defines=['OP2_VOLN=2'], loop_contracts=False, reach=['two members'],
